@@ -46,16 +46,24 @@ def record_contents(rt):
     return torch.stack([rt.read(o) for o in range(1, rt.recordsz + 1)], 0)  # (N, B, ...)
 
 
-def neuron_component(cname, shifted=False):
+def neuron_component(cname, shifted=False, freeze="eval"):
+    """freeze: how the adaptation is frozen - eval mode, or the documented ``adapt=False`` argument in training mode.
+    Adaptive classes start from a non-zero (learned) adaptation shared by all samples, so that it takes part in every step."""
     hp = shifted_hp(cname) if shifted else HP[cname][0]
 
     def make(B):
         n = CLS[cname]((2,), DT, refrac_t=2.0, batch_size=B, **hp)
-        n.eval()  # adaptation frozen
+        if cname in ADAPT_THRESH + ADAPT_CURR:
+            a = get_adapt(n, cname)
+            set_adapt(n, cname, torch.full_like(a, 0.25) * (1 + torch.arange(a.shape[-1], dtype=a.dtype)))
+        if freeze == "eval":
+            n.eval()  # adaptation frozen
+        else:
+            n.train()
         return n
 
     def step(n, x):
-        out = n(x)
+        out = n(x) if freeze == "eval" else n(x, adapt=False)
         obs = {"out": out, "voltage": n.voltage, "refrac": n.refrac, "spike": n.spike}
         return obs
 
@@ -289,6 +297,8 @@ def run(rep):
         jobs.append((independence_shard, ("neuron", (cname,), T, Bs)))
         for path in ("grown", "shrunk"):  # batch size assigned through the setter on a fresh object
             jobs.append((independence_shard, ("neuron", (cname, True), T, (2,), path)))  # resting potential -60
+        if cname in ADAPT_THRESH + ADAPT_CURR:  # adaptation frozen by adapt=False while the module is in training mode
+            jobs.append((independence_shard, ("neuron", (cname, False, "kwarg"), T, Bs)))
     for sname in ("delta", "deltaplus", "exp", "dexp"):
         for delay in (0.0, 2.0):
             jobs.append((independence_shard, ("synapse", (sname, delay), T, Bs)))
